@@ -285,9 +285,11 @@ def resolution_stream(ctx, g):
             except Exception as e:  # noqa: BLE001
                 ctx.add("oracle", "resolution", "decoding raised %s" % exc_name(g, e), {"type_name": tn, "stage": stage})
                 return False
+            import content
+            inside = {n.uuid: n for n in content.reach(target)}        # "nodes of the given IR": by containment, not by its table
             for leaf in leaves(dec):
                 u = leaf.uuid if isinstance(leaf, g.Node) else leaf
-                want = target.get_by_uuid(u)
+                want = inside.get(u)
                 ctx.count("resolution_leaves")
                 if (want is not None and leaf is not want) or (want is None and isinstance(leaf, g.Node)):
                     ctx.add("oracle", "resolution", "%s: a UUID entry decodes to %s while the IR %s" %
@@ -309,6 +311,17 @@ def resolution_stream(ctx, g):
         bi.blocks.add(victim)
         px.module = m2
         if not (check("ir", ir, "after re-attaching the block and moving the proxy away") and check("ir2", ir2, "other IR after the move")):
+            continue
+        # moves inside the IR through the NEW owner's collection (the old owner still holds the node at that moment)
+        bi_b = g.ByteInterval(size=16, section=sec)
+        bi_b.blocks.add(blocks[0])
+        bi_b.blocks.update(x for x in [blocks[1]])
+        sec_b = g.Section(name="t", module=m)
+        sec_b.byte_intervals.add(bi)
+        if not check("ir", ir, "after moving blocks and an interval to sibling owners through the owners' collections"):
+            continue
+        m2.sections.add(sec_b)
+        if not (check("ir", ir, "after a section (with its interval and blocks) moved to the other IR") and check("ir2", ir2, "the IR that received the section")):
             continue
         ctx.case("resolution" + tn + bs.hex(), True)
 
